@@ -1361,3 +1361,34 @@ Proof.
   destruct (seq_ok_sound _ _ _ _ _ _ _ H H2 E2 Hwf R2) as [->|[_ ->]]; [|contradiction].
   reflexivity.
 Qed.
+
+(* ---- inputs a handler is not supposed to look at --------------------------------------------------------------------
+   The deposit record carries every input some handler uses; what a handler of ANOTHER kind does with it: nothing.
+   The handler response is an input of the ERC20 / native handler only (rewrite 1), the separate amount of the
+   Bitcoin handler only, and the Bitcoin handler takes the destination from the payload.  Neither the relay, nor
+   the wire format, nor the reference depend on the other fields. *)
+Definition with_hr (d : deposit) (hr : bytes) : deposit :=
+  mkDep (d_src d) (d_dst d) (d_nonce d) (d_rid d) (d_data d) hr (d_amount d).
+Definition with_amount (d : deposit) (a : N) : deposit :=
+  mkDep (d_src d) (d_dst d) (d_nonce d) (d_rid d) (d_data d) (d_hr d) a.
+Definition with_dst (d : deposit) (x : N) : deposit :=
+  mkDep (d_src d) x (d_nonce d) (d_rid d) (d_data d) (d_hr d) (d_amount d).
+
+Lemma hr_ignored : forall sk dk d hr, sk <> SErc20 ->
+  relay sk dk (with_hr d hr) = relay sk dk d /\ wf sk dk (with_hr d hr) = wf sk dk d /\
+  spec_proposal sk dk (with_hr d hr) = spec_proposal sk dk d.
+Proof.
+  intros sk dk [s t n r cd h a] hr Hk. destruct sk; try congruence; destruct dk; repeat split; reflexivity.
+Qed.
+
+Lemma amount_ignored : forall sk dk d a, sk <> SBtc ->
+  relay sk dk (with_amount d a) = relay sk dk d /\ wf sk dk (with_amount d a) = wf sk dk d /\
+  spec_proposal sk dk (with_amount d a) = spec_proposal sk dk d.
+Proof.
+  intros sk dk [s t n r cd h a0] a Hk. destruct sk; try congruence; destruct dk; repeat split; reflexivity.
+Qed.
+
+Lemma btc_dst_ignored : forall dk d x,
+  relay SBtc dk (with_dst d x) = relay SBtc dk d /\ wf SBtc dk (with_dst d x) = wf SBtc dk d /\
+  spec_proposal SBtc dk (with_dst d x) = spec_proposal SBtc dk d.
+Proof. intros dk [s t n r cd h a] x. destruct dk; repeat split; reflexivity. Qed.
